@@ -766,8 +766,9 @@ def _as_problem(spec, surfaces, flight, n_points=1, compressible=False, rotation
         if "beta" in vals:
             prob.model.connect("beta", pn + ".beta")
         if rotational:
+            # omega comes from the flight-condition IVC; the rotation centre is left as a free input of the point
+            # (set with set_val, as the documented roll example does), not wired to anything
             prob.model.connect("omega", pn + ".coupled.aero_states.omega")
-            prob.model.connect("cg_rot", pn + ".coupled.aero_states.cg")
         if ground:
             prob.model.connect("height_agl", pn + ".height_agl")
         needs_lf = any(
@@ -968,11 +969,10 @@ def z9(spec):
     rot = bool(spec.get("rotational"))
     if rot:
         flight["omega"] = (np.array([3.0, 2.0, -1.0]), "deg/s")
-        flight["cg_rot"] = (np.array([2.0, 0.0, 0.0]), "m")
     prob, coupled = _as_problem(spec, [wing, tail], flight, rotational=rot)
     inputs = _as_inputs(flight, wind_off=True) + ([
         Inp("omega", np.array([3.0, 2.0, -1.0]), "abs", -5.0, 5.0, special=[0.0]),
-        Inp("cg_rot", np.array([2.0, 0.0, 0.0]), "abs", -1.0, 1.0),
+        Inp("AS_point_0.coupled.aero_states.cg", np.array([2.0, 0.0, 0.0]), "abs", -1.0, 1.0),
     ] if rot else []) + [
         Inp("beta", 1.0, "uni", -3.0, 3.0, special=[0.0]),
         Inp("load_factor", 1.0, "uni", 0.8, 2.5, special=[1.0]),
